@@ -86,3 +86,171 @@ package transform
 //@   loop 3 decreases srcEnd - srcIdx
 //@   loop 4 invariant 0 <= log2 && 0 <= dstIdx && dstIdx + log2 < dstEnd && 1 <= srcIdx && srcIdx <= srcEnd && srcEnd == len(src) && dstEnd == len(src) && len(src) <= len(dst)
 //@   loop 4 decreases log2
+
+//@ -- ZRLT.Inverse on ANY source bytes (forged blocks included): no index fault, the run
+//@ -- length accumulator may wrap (64 doublings) without consequence, counts within the buffers.
+//@ func (*ZRLT) Inverse
+//@   mode int
+//@   props C13 C03
+//@   requires !samearray(src, dst)
+//@   ensures result0 <= len(src) && result1 <= len(dst)                                                  #counts-within-buffers
+//@   ensures result2 == nil && len(dst) > 0 ==> result0 == len(src)                                      #success-consumes-the-whole-input
+//@   modifies dst[*]
+//@   loop 1 invariant 0 <= srcIdx && srcIdx < srcEnd && 0 <= dstIdx && dstIdx < dstEnd && srcEnd == len(src) && dstEnd == len(dst)
+//@   loop 1 decreases srcEnd - srcIdx
+//@   loop 2 invariant 0 <= srcIdx && srcIdx < srcEnd && srcIdx >= loopentry(srcIdx) && 0 <= dstIdx && dstIdx < dstEnd && srcEnd == len(src) && dstEnd == len(dst)
+//@   loop 2 decreases srcEnd - srcIdx
+//@   loop 3 invariant 0 <= runLength && 0 <= dstIdx && dstIdx + runLength < dstEnd && 0 <= srcIdx && srcIdx < srcEnd && srcEnd == len(src) && dstEnd == len(dst)
+//@   loop 3 decreases runLength
+//@   loop 4 invariant 0 <= runLength && 0 <= dstIdx && dstIdx + runLength <= dstEnd && 0 <= srcIdx && srcIdx <= srcEnd && srcEnd == len(src) && dstEnd == len(dst)
+//@   loop 4 decreases runLength
+
+//@ -- MaxEncodedLen of the concrete transforms: not below the reference formula (the Forward
+//@ -- bodies, which are NOT under contract, were written against it: lowering it breaks the fit
+//@ -- of their output, raising it is harmless), never below the input length (the stream
+//@ -- layer sizes its buffers with it), bounded expansion (srcLen/8 + 8192 at most, which the
+//@ -- decoder's allocation bound relies on), no overflow for any block size up to 1 GiB.
+//@ func (*AliasCodec) MaxEncodedLen
+//@   mode int
+//@   props C13
+//@   ensures 0 <= srcLen && srcLen <= 1073741824 ==> result >= srcLen + 1024       #not-below-the-size-the-unverified-body-was-written-for
+//@   ensures 0 <= srcLen && srcLen <= 1073741824 ==> srcLen <= result && result <= srcLen + srcLen/8 + 8192       #advertised-size-covers-the-input-bounded-expansion
+//@   modifies nothing
+
+//@ func (*BWT) MaxEncodedLen
+//@   mode int
+//@   props C13
+//@   ensures 0 <= srcLen && srcLen <= 1073741824 ==> result >= srcLen       #not-below-the-size-the-unverified-body-was-written-for
+//@   ensures 0 <= srcLen && srcLen <= 1073741824 ==> srcLen <= result && result <= srcLen + srcLen/8 + 8192       #advertised-size-covers-the-input-bounded-expansion
+//@   modifies nothing
+
+//@ func (*BWTBlockCodec) MaxEncodedLen
+//@   mode int
+//@   props C13
+//@   ensures 0 <= srcLen && srcLen <= 1073741824 ==> result >= srcLen + 33       #not-below-the-size-the-unverified-body-was-written-for
+//@   ensures 0 <= srcLen && srcLen <= 1073741824 ==> srcLen <= result && result <= srcLen + srcLen/8 + 8192       #advertised-size-covers-the-input-bounded-expansion
+//@   modifies nothing
+
+//@ func (*BWTS) MaxEncodedLen
+//@   mode int
+//@   props C13
+//@   ensures 0 <= srcLen && srcLen <= 1073741824 ==> result >= srcLen       #not-below-the-size-the-unverified-body-was-written-for
+//@   ensures 0 <= srcLen && srcLen <= 1073741824 ==> srcLen <= result && result <= srcLen + srcLen/8 + 8192       #advertised-size-covers-the-input-bounded-expansion
+//@   modifies nothing
+
+//@ func (*EXECodec) MaxEncodedLen
+//@   mode int
+//@   props C13
+//@   ensures 0 <= srcLen && srcLen <= 1073741824 ==> result >= (srcLen <= 256 ? srcLen + 32 : srcLen + srcLen/8)       #not-below-the-size-the-unverified-body-was-written-for
+//@   ensures 0 <= srcLen && srcLen <= 1073741824 ==> srcLen <= result && result <= srcLen + srcLen/8 + 8192       #advertised-size-covers-the-input-bounded-expansion
+//@   modifies nothing
+
+//@ func (*FSDCodec) MaxEncodedLen
+//@   mode int
+//@   props C13
+//@   ensures 0 <= srcLen && srcLen <= 1073741824 ==> result >= (srcLen/16 > 64 ? srcLen + srcLen/16 : srcLen + 64)       #not-below-the-size-the-unverified-body-was-written-for
+//@   ensures 0 <= srcLen && srcLen <= 1073741824 ==> srcLen <= result && result <= srcLen + srcLen/8 + 8192       #advertised-size-covers-the-input-bounded-expansion
+//@   modifies nothing
+
+//@ func (LZXCodec) MaxEncodedLen
+//@   mode int
+//@   props C13
+//@   ensures 0 <= srcLen && srcLen <= 1073741824 ==> result >= (srcLen <= 1024 ? srcLen + 16 : srcLen + srcLen/64)       #not-below-the-size-the-unverified-body-was-written-for
+//@   ensures 0 <= srcLen && srcLen <= 1073741824 ==> srcLen <= result && result <= srcLen + srcLen/8 + 8192       #advertised-size-covers-the-input-bounded-expansion
+//@   modifies nothing
+
+//@ func (LZPCodec) MaxEncodedLen
+//@   mode int
+//@   props C13
+//@   ensures 0 <= srcLen && srcLen <= 1073741824 ==> result >= (srcLen <= 1024 ? srcLen + 16 : srcLen + srcLen/64)       #not-below-the-size-the-unverified-body-was-written-for
+//@   ensures 0 <= srcLen && srcLen <= 1073741824 ==> srcLen <= result && result <= srcLen + srcLen/8 + 8192       #advertised-size-covers-the-input-bounded-expansion
+//@   modifies nothing
+
+//@ func (*NullTransform) MaxEncodedLen
+//@   mode int
+//@   props C13
+//@   ensures result == srcLen                                                                            #advertised-size
+//@   ensures 0 <= srcLen && srcLen <= 1073741824 ==> result >= srcLen       #not-below-the-size-the-unverified-body-was-written-for
+//@   ensures 0 <= srcLen && srcLen <= 1073741824 ==> srcLen <= result && result <= srcLen + srcLen/8 + 8192       #advertised-size-covers-the-input-bounded-expansion
+//@   modifies nothing
+
+//@ func (*RLT) MaxEncodedLen
+//@   mode int
+//@   props C13
+//@   ensures 0 <= srcLen && srcLen <= 1073741824 ==> result >= (srcLen <= 512 ? srcLen + 32 : srcLen)       #not-below-the-size-the-unverified-body-was-written-for
+//@   ensures 0 <= srcLen && srcLen <= 1073741824 ==> srcLen <= result && result <= srcLen + srcLen/8 + 8192       #advertised-size-covers-the-input-bounded-expansion
+//@   modifies nothing
+
+//@ func (*rolzCodec1) MaxEncodedLen
+//@   mode int
+//@   props C13
+//@   ensures 0 <= srcLen && srcLen <= 1073741824 ==> result >= (srcLen <= 512 ? srcLen + 64 : srcLen)       #not-below-the-size-the-unverified-body-was-written-for
+//@   ensures 0 <= srcLen && srcLen <= 1073741824 ==> srcLen <= result && result <= srcLen + srcLen/8 + 8192       #advertised-size-covers-the-input-bounded-expansion
+//@   modifies nothing
+
+//@ func (*rolzCodec2) MaxEncodedLen
+//@   mode int
+//@   props C13
+//@   ensures 0 <= srcLen && srcLen <= 1073741824 ==> result >= (srcLen/32 > 1024 ? srcLen + srcLen/32 : srcLen + 1024)       #not-below-the-size-the-unverified-body-was-written-for
+//@   ensures 0 <= srcLen && srcLen <= 1073741824 ==> srcLen <= result && result <= srcLen + srcLen/8 + 8192       #advertised-size-covers-the-input-bounded-expansion
+//@   modifies nothing
+
+//@ func (*SBRT) MaxEncodedLen
+//@   mode int
+//@   props C13
+//@   ensures 0 <= srcLen && srcLen <= 1073741824 ==> result >= srcLen + 33       #not-below-the-size-the-unverified-body-was-written-for
+//@   ensures 0 <= srcLen && srcLen <= 1073741824 ==> srcLen <= result && result <= srcLen + srcLen/8 + 8192       #advertised-size-covers-the-input-bounded-expansion
+//@   modifies nothing
+
+//@ func (*SRT) MaxEncodedLen
+//@   mode int
+//@   props C13
+//@   ensures 0 <= srcLen && srcLen <= 1073741824 ==> result >= srcLen + 1024       #not-below-the-size-the-unverified-body-was-written-for
+//@   ensures 0 <= srcLen && srcLen <= 1073741824 ==> srcLen <= result && result <= srcLen + srcLen/8 + 8192       #advertised-size-covers-the-input-bounded-expansion
+//@   modifies nothing
+
+//@ func (*textCodec1) MaxEncodedLen
+//@   mode int
+//@   props C13
+//@   ensures 0 <= srcLen && srcLen <= 1073741824 ==> result >= srcLen       #not-below-the-size-the-unverified-body-was-written-for
+//@   ensures 0 <= srcLen && srcLen <= 1073741824 ==> srcLen <= result && result <= srcLen + srcLen/8 + 8192       #advertised-size-covers-the-input-bounded-expansion
+//@   modifies nothing
+
+//@ func (*textCodec2) MaxEncodedLen
+//@   mode int
+//@   props C13
+//@   ensures 0 <= srcLen && srcLen <= 1073741824 ==> result >= srcLen       #not-below-the-size-the-unverified-body-was-written-for
+//@   ensures 0 <= srcLen && srcLen <= 1073741824 ==> srcLen <= result && result <= srcLen + srcLen/8 + 8192       #advertised-size-covers-the-input-bounded-expansion
+//@   modifies nothing
+
+//@ func (*UTFCodec) MaxEncodedLen
+//@   mode int
+//@   props C13
+//@   ensures 0 <= srcLen && srcLen <= 1073741824 ==> result >= srcLen + 8192       #not-below-the-size-the-unverified-body-was-written-for
+//@   ensures 0 <= srcLen && srcLen <= 1073741824 ==> srcLen <= result && result <= srcLen + srcLen/8 + 8192       #advertised-size-covers-the-input-bounded-expansion
+//@   modifies nothing
+
+//@ -- NONE transform: an exact copy in both directions (content level), the input is never written.
+//@ func doCopy
+//@   mode int
+//@   props C13
+//@   ensures result2 == nil <==> (len(src) == 0 || len(dst) == 0 || len(src) <= len(dst))                #declines-only-a-short-buffer
+//@   ensures result2 == nil && len(dst) > 0 ==> result0 == len(src) && result1 == len(src)               #whole-block-copied
+//@   ensures result2 == nil && len(dst) > 0 && !samearray(src, dst) ==> (forall k :: 0 <= k && k < len(src) ==> dst[k] == old(src[k]))      #content-equal
+//@   modifies dst[*]
+
+//@ func (*NullTransform) Forward
+//@   mode int
+//@   props C13
+//@   requires !samearray(src, dst)
+//@   ensures len(src) <= len(dst) ==> result2 == nil                                                     #declines-only-a-short-buffer
+//@   ensures len(src) > len(dst) ==> result2 != nil                                                      #short-buffer-declined
+//@   ensures result2 == nil && len(dst) > 0 ==> result0 == len(src) && result1 == len(src) && (forall k :: 0 <= k && k < len(src) ==> dst[k] == old(src[k]))      #exact-copy
+//@   modifies dst[*]
+
+//@ func (*NullTransform) Inverse
+//@   mode int
+//@   props C13
+//@   requires !samearray(src, dst)
+//@   ensures result2 == nil && len(dst) > 0 ==> result0 == len(src) && result1 == len(src) && (forall k :: 0 <= k && k < len(src) ==> dst[k] == old(src[k]))      #exact-copy
+//@   modifies dst[*]
